@@ -100,6 +100,13 @@ pub struct Behav {
     /// dependents" has to be lived through.
     #[serde(default)]
     pub exit_pause_ms: u32,
+    /// the child exits the moment it has started, while monorail may still be starting its siblings
+    #[serde(default)]
+    pub early_exit: bool,
+    /// before it exits, the child leaves a background process behind that keeps its stdout and stderr open
+    /// for this long (ms)
+    #[serde(default)]
+    pub hold_pipes_ms: u32,
 }
 
 #[derive(Serialize, Deserialize, Clone, Copy, Debug, PartialEq)]
@@ -223,6 +230,7 @@ pub struct HelperRec {
     pub argv: Vec<Vec<u8>>,
     pub cwd: Vec<u8>,
     pub stdin_null: bool,
+    pub env: Vec<u8>,
     pub start_seq: u64,
     /// the spawn point that preceded this start, if any
     pub spawn_seq: Option<u64>,
@@ -604,10 +612,26 @@ pub fn drive_run_l(w: &mut World, actor: &str, sc: &RunScript, hang: Duration, l
                             tr.log.push(format!("hello {} {}", cc, tt));
                             tr.helpers.push(HelperRec {
                                 command: cc, target: tt, conn: h.conn, pid: h.pid, argv0: h.argv0, argv: h.args, cwd: h.cwd,
-                                stdin_null: h.stdin_null, start_seq: seq, spawn_seq: Some(sseq), exit_instr_seq: None, exit_code: None,
+                                stdin_null: h.stdin_null, env: h.env, start_seq: seq, spawn_seq: Some(sseq), exit_instr_seq: None, exit_code: None,
                                 written: [vec![], vec![], vec![]], write_errors: 0, group, script, released: false,
                             });
                             live.push(tr.helpers.len() - 1);
+                            let hi = tr.helpers.len() - 1;
+                            let early = sc.behav_for(&tr.helpers[hi].command, &tr.helpers[hi].target).map(|b| (b.early_exit, b.code)).unwrap_or((false, 0));
+                            if early.0 {
+                                // it is gone before its siblings have even been started
+                                let seq = ctl.tick();
+                                ctl.send(tr.helpers[hi].conn, &format!("EXIT {}\n", early.1));
+                                tr.helpers[hi].exit_instr_seq = Some(seq);
+                                tr.helpers[hi].exit_code = Some(early.1);
+                                tr.helpers[hi].script.clear();
+                                tr.log.push(format!("early-exit {} {} code={}", tr.helpers[hi].command, tr.helpers[hi].target, early.1));
+                                live.retain(|x| *x != hi);
+                                done_instructed += 1;
+                                if early.1 != 0 {
+                                    failure = true;
+                                }
+                            }
                         }
                         Some(Ev::Exit(x)) => {
                             tr.log.push(format!("m-exit-during-spawn code={:?}", x.code));
@@ -650,8 +674,6 @@ pub fn drive_run_l(w: &mut World, actor: &str, sc: &RunScript, hang: Duration, l
                                     }
                                 }
                                 in_results = true;
-                                results_consumed = 0;
-                                done_instructed = 0;
                                 straggler = None;
                             }
                             "run.task.result" => {
@@ -667,6 +689,8 @@ pub fn drive_run_l(w: &mut World, actor: &str, sc: &RunScript, hang: Duration, l
                             "run.group.done" => {
                                 in_results = false;
                                 group += 1;
+                                results_consumed = 0;
+                                done_instructed = 0;
                             }
                             _ => {}
                         }
@@ -754,6 +778,13 @@ pub fn drive_run_l(w: &mut World, actor: &str, sc: &RunScript, hang: Duration, l
                             continue 'outer;
                         }
                         after_hold = None;
+                        let hold_pipes = sc.behav_for(&tr.helpers[i].command, &tr.helpers[i].target).map(|b| b.hold_pipes_ms).unwrap_or(0);
+                        if hold_pipes > 0 {
+                            ctl.send(conn, &format!("FORKHOLD {}\n", hold_pipes));
+                            let _ = ctl.wait_for(|e| matches!(e, Ev::Line{conn: c, ..} if *c == conn), hang);
+                            tr.log.push(format!("background process of {} {} keeps the pipes open for {} ms", tr.helpers[i].command, tr.helpers[i].target, hold_pipes));
+                            tr.real_pause_ms += hold_pipes as u64;
+                        }
                         let seq = ctl.tick();
                         if code < 0 {
                             // die by signal -code: the process has no exit code at all
